@@ -412,6 +412,16 @@ func (b *badPeer) send(class string) {
 	switch class {
 	case "garbage":
 		payload = []byte{0xff, 0x00, 0xfe, byte(b.n), 0x13, 0x37, 0xf0, 0x0f, 0xff, 0xff}
+		// ... in turn with messages whose header is fine and whose option list is cut inside an extended delta / length
+		// (one byte into a two-byte extension, in front of a one-byte extension) or uses the reserved nibble 15
+		tails := [][]byte{nil, {0xE0, 0x00}, {0xD0}, {0x0E, 0x00}, {0xF1}, {0xEE, 0x00, 0x00, 0x00}}
+		if tl := tails[b.n%len(tails)]; tl != nil {
+			if datagram {
+				payload = append([]byte{0x40, 0x01, byte(b.n >> 8), byte(b.n)}, tl...)
+			} else {
+				payload = append([]byte{byte(len(tl) << 4), 0x01}, tl...)
+			}
+		}
 	case "trunc":
 		if datagram {
 			payload = memnet.Build(message.Confirmable, int(codes.GET), int32(b.n), []byte{1, 2, 3, 4}, message.Options{{ID: message.URIPath, Value: []byte("abcdef")}}, []byte("xyz"))[:7]
